@@ -442,6 +442,8 @@ var vfBadCalls = []string{
 	// shapes whose byte size does not fit 64 bits (whether they are refused is not the point:
 	// if they are, nothing may be left behind)
 	"mkds-size-overflow-contiguous", "mkds-size-overflow-chunked", "mkds-size-overflow-chunked-2d",
+	// ... and one that fits 64 bits but no file (2^63 bytes)
+	"mkds-size-beyond-any-file",
 	"mkds-maxdims-below-dims", "mkds-maxdims-without-chunks", "mkds-maxdims-rank-mismatch", "mkds-string-without-size",
 	"mkds-array-without-dims", "mkds-enum-mismatch", "mkds-opaque-without-tag", "mkds-unknown-type", "mkds-duplicate", "mkds-missing-parent",
 	"mkgroup-empty", "mkgroup-relative", "mkgroup-root", "mkgroup-duplicate", "mkgroup-missing-parent", "mkgroup-over-dataset-name",
@@ -470,6 +472,9 @@ func vfApplyBad(w *vfWorld, o vfOp) error {
 		return e
 	case "mkds-size-overflow-contiguous":
 		_, e := fw.CreateDataset("/bad", Int32, []uint64{1 << 62})
+		return e
+	case "mkds-size-beyond-any-file":
+		_, e := fw.CreateDataset("/bad", Uint8, []uint64{1 << 63})
 		return e
 	case "mkds-size-overflow-chunked":
 		_, e := fw.CreateDataset("/bad", Int32, []uint64{1 << 62}, WithChunkDims([]uint64{16}))
